@@ -556,13 +556,42 @@ def single_namespace_rule(chk: Check, eng: Engine, rule: str) -> None:
             g = node.args[1] if len(node.args) > 1 else next((k.value for k in node.keywords if k.arg == "globals"), None)
             l = node.args[2] if len(node.args) > 2 else next((k.value for k in node.keywords if k.arg == "locals"), None)
             if l is None or (g is not None and norm(g) == norm(l)):
-                chk.ok(rule, mod.name, node.lineno, f"`{short(node, 70)}`: one namespace")
+                stale = _persistent_namespace(mod, node, g)
+                if stale:
+                    chk.bad(rule, mod.relpath, node.lineno, mod.name, f"`{short(node, 70)}` evaluates in a namespace that outlives the evaluation: {stale}",
+                            "the variables bound for one evaluation (quantifier variables, matches) stay visible to the next ones and shadow the spec's own names, and the "
+                            "copy of the globals taken at the first evaluation never sees what the spec's code assigns later", keyparts=f"persistent-namespace|{norm(g) if g is not None else ''}")
+                else:
+                    chk.ok(rule, mod.name, node.lineno, f"`{short(node, 70)}`: one namespace")
             else:
                 chk.bad(rule, mod.relpath, node.lineno, mod.name, f"`{short(node, 80)}` evaluates spec text with separate globals and locals",
                         "the variables that stand for `<symbol>` references live in the locals mapping, which generator expressions and lambdas of the text cannot see: "
                         "`where all(int(str(<s>)[i]) > 5 for i in range(2))` raises NameError and counts as failed for every tree", keyparts=f"two-namespaces|{norm(l)}")
     if n < 4:
         raise AnalysisError(f"only {n} eval/exec sites of spec text found")
+
+
+def _persistent_namespace(mod, call: ast.Call, ns: Optional[ast.AST]) -> Optional[str]:
+    """The mapping given to eval() must die with the evaluation (a dict built in the same call) or be the spec's globals left as they are.
+    A mapping that is fetched from a longer-lived container and then *updated* with this evaluation's bindings is neither."""
+    if not isinstance(ns, ast.Name):
+        return None
+    fn = None
+    for f in ast.walk(mod.tree):
+        if isinstance(f, (ast.FunctionDef, ast.AsyncFunctionDef)) and any(x is call for x in ast.walk(f)):
+            fn = f
+    if fn is None:
+        return None
+    defs = [a.value for a in ast.walk(fn) if isinstance(a, ast.Assign) and any(isinstance(t, ast.Name) and t.id == ns.id for t in a.targets)]
+    if not defs:
+        return None
+    fresh = all(isinstance(d, (ast.Dict, ast.DictComp)) or (isinstance(d, ast.Call) and isinstance(d.func, ast.Name) and d.func.id in ("dict", "ChainMap")) or
+                (isinstance(d, ast.Call) and isinstance(d.func, ast.Attribute) and d.func.attr == "copy") for d in defs)
+    mutated = [c for c in ast.walk(fn) if (isinstance(c, ast.Call) and isinstance(c.func, ast.Attribute) and c.func.attr in ("update", "setdefault", "__setitem__") and norm(c.func.value) == ns.id)
+               or (isinstance(c, ast.Assign) and any(isinstance(t, ast.Subscript) and norm(t.value) == ns.id for t in c.targets))]
+    if not fresh and mutated:
+        return f"`{ns.id}` comes from `{short(defs[0], 50)}` and is written here (`{short(mutated[0], 50)}`)"
+    return None
 
 
 def inherited_flags_rule(chk: Check, eng: Engine, rule: str) -> None:
@@ -994,6 +1023,8 @@ from ..mutants import M  # noqa: E402
 _CV = "src/fandango/language/parse/convert.py"
 _G4 = "language/FandangoParser.g4"
 MUTANTS = [
+    M("evaluation-namespace-kept-between-evaluations", "src/fandango/constraints/constraint.py", "        return eval(expression, {**global_variables, **local_variables})\n",
+      "        entry = Constraint._namespaces.get(id(global_variables))\n        if entry is None:\n            entry = (global_variables, dict(global_variables))\n            Constraint._namespaces[id(global_variables)] = entry\n        namespace = entry[1]\n        namespace.update(local_variables)\n        return eval(expression, namespace)\n", "R08-k"),
     M("placeholders-as-eval-locals", "src/fandango/constraints/constraint.py", "        return eval(expression, {**global_variables, **local_variables})\n", "        return eval(expression, global_variables, local_variables)\n", "R08-k"),
     M("generator-parameters-as-eval-locals", "src/fandango/language/grammar/grammar.py", "            generator.call, {**self._global_variables, **local_variables}\n", "            generator.call, self._global_variables, local_variables\n", "R08-k"),
     M("fstring-text-from-token-texts", _CV, "            text = stream.getText(begin, end)\n", "            text = \"\".join(t.getText() for t in tokens_between(begin, end))\n            trees.append(ast.Constant(value=text.getText()))\n", "R08-i"),
